@@ -22,10 +22,10 @@ extern "C" { char nondet_char(void); }
 static inline void count_hook(const void* base, int n, int v)
 {
    if(base == (const void*)gp_cs)
-      __CPROVER_assume(0 <= gp_cb[n] && gp_cb[n + 1] == gp_cb[n] + (v > 0 ? 1 : 0) && gp_cb[n + 1] <= gp_cb[g_nc]);
+      __CPROVER_assume(0 <= gp_cb[n] && gp_cb[n] <= n && gp_cb[n + 1] == gp_cb[n] + (v > 0 ? 1 : 0) && gp_cb[n + 1] <= gp_cb[g_nc]);
    else if(base == (const void*)gp_rs)
-      __CPROVER_assume(0 <= gp_nrw[n] && gp_nrw[n + 1] == gp_nrw[n] + (v < 0 ? 1 : 0) && gp_nrw[n + 1] <= gp_nrw[g_nr]
-                       && (n < g_r ? gp_nrw[n + 1] <= gp_nrw[g_r] : 1));
+      __CPROVER_assume(0 <= gp_nrw[n] && gp_nrw[n] <= n && gp_nrw[n + 1] == gp_nrw[n] + (v < 0 ? 1 : 0) && gp_nrw[n + 1] <= gp_nrw[g_nr]
+                       && ((0 <= g_r && g_r < g_nr && n < g_r) ? gp_nrw[n + 1] <= gp_nrw[g_r] : 1));
 }
 #define COUNT_HOOK(data, n) count_hook((const void*)(data), (n), (int)(data)[n])
 #else
@@ -89,12 +89,15 @@ struct NameSet
    int number(const char* str) const
    {
       int n;
-      if(g_ns_iscol[id] && str == gp_f2) n = g_line_c;
-      else if(!g_ns_iscol[id] && str == gp_f3) n = g_line_r;
+      /* field2 must be looked up in the column name set in use, field3 in the row name set in use */
+      bool col = (str == gp_f2 && id == (g_usecols ? 1 : 2));
+      bool row = (str == gp_f3 && id == (g_userows ? 0 : g_usecols ? 2 : 3));
+      if(col) n = g_line_c;
+      else if(row) n = g_line_r;
       else { g_bad_lookup++; n = -1; }
       __CPROVER_assert(-1 <= n && n < g_ns_num[id], "NameSet::number returns -1 or a position");
       if(n < 0) g_unknown++;
-      else if(g_ns_iscol[id]) { if(n == g_c1) g_lastc = g_line_kind; }
+      else if(col) { if(n == g_c1) g_lastc = g_line_kind; }
       else { if(n == g_r) g_lastr = g_line_kind; }
       return n;
    }
@@ -188,6 +191,8 @@ struct stringstream
       return *this;
    }
    stringstream& operator<<(int v) { if(g_ss_form == 1) { g_ss_form = 2; g_ss_val = v; } else g_ss_form = 3; return *this; }
+   void str(const char* s) { if(s[0] == 0) { g_ss_form = 0; g_ss_lit = 0; g_ss_val = -1; } else g_ss_form = 3; }   /* name.str("") clears */
+   void clear() {}
    StrT str() const { g_str_form = g_ss_form; g_str_lit = g_ss_lit; g_str_val = g_ss_val; StrT t; t.p = &g_ss_marker; return t; }
 };
 struct istream { int dummy; };
